@@ -91,6 +91,8 @@ fn decode(attr: &Arc<Vec<packet::Attribute>>) -> (u32, u32, u32) {
                 tok = v & 0xffff;
             } else if v >> 16 == 2 {
                 src = v & 0xffff;
+            } else if v == 0x0003_0001 {
+                tok += 100; // tagged by export policy 1 (the token community precedes it)
             }
         }
     }
@@ -185,6 +187,31 @@ fn reject_policy(cond: table::Condition) -> Arc<table::PolicyAssignment> {
     });
     Arc::new(table::PolicyAssignment {
         name: Arc::from("a"),
+        disposition: table::Disposition::Accept,
+        policies: vec![p],
+        needs_rpki: false,
+    })
+}
+
+fn tag_policy() -> Arc<table::PolicyAssignment> {
+    let st = Arc::new(table::Statement {
+        name: Arc::from("tag"),
+        conditions: vec![],
+        disposition: Some(table::Disposition::Accept),
+        actions: table::Actions {
+            community: Some(table::CommunityAction {
+                action_type: table::CommunityActionType::Add,
+                communities: vec![0x0003_0001],
+            }),
+            ..Default::default()
+        },
+    });
+    let p = Arc::new(table::Policy {
+        name: Arc::from("tagp"),
+        statements: vec![st],
+    });
+    Arc::new(table::PolicyAssignment {
+        name: Arc::from("taga"),
         disposition: table::Disposition::Accept,
         policies: vec![p],
         needs_rpki: false,
@@ -431,6 +458,31 @@ async fn run(case: &Val) -> Val {
                 let e = w.conn.pending.get(&FAM).map(|p| p.is_empty()).unwrap_or(true);
                 out.push(Val::L(vec![Val::n(5), Val::b(e)]));
             }
+            9 => {
+                let p = if op.at(1).u32() == 0 {
+                    if cfg.at(5).bool() {
+                        Some(reject_policy(table::Condition::Origin(2)))
+                    } else {
+                        None
+                    }
+                } else {
+                    Some(tag_policy())
+                };
+                w.conn.state.export_policy.store(p);
+                out.push(Val::L(vec![Val::n(8)]));
+            }
+            8 => {
+                // session end: the real unregister_peer; the session's per-connection state is
+                // what a new PeerSession would start with
+                tables.unregister_peer(w.conn.remote_addr, &[], &[]);
+                w.conn.peer_event_rx = None;
+                w.conn.pending.clear();
+                w.conn.export_map = ExportMap::default();
+                w.fifo.clear();
+                w.mirror.clear();
+                w.registered = false;
+                out.push(Val::L(vec![Val::n(7)]));
+            }
             _ => panic!("verif: bad op"),
         }
         if code <= 3 {
@@ -472,13 +524,10 @@ async fn run(case: &Val) -> Val {
     // on_established, flushed through the socket
     let pending_empty = w.conn.pending.get(&FAM).map(|p| p.is_empty()).unwrap_or(true);
     let chan: Vec<Val> = w.fifo.iter().map(|c| Val::n(net_idx(&c.net))).collect();
-    let was_registered = w.registered;
     let mut fresh = Mirror::new();
-    if was_registered {
-        // whatever is still pending belongs to the old session
-        w.establish().await;
-        w.flush(&mut fresh).await;
-    }
+    // whatever is still pending belongs to the old session
+    w.establish().await;
+    w.flush(&mut fresh).await;
     out.push(Val::L(vec![
         Val::n(6),
         Val::b(pending_empty),
